@@ -13,7 +13,7 @@ from pgpy.types import MetaDispatchable
 
 warnings.simplefilter('ignore')
 
-FUNCTIONS_ENCODED = ['pgpy.types.MetaDispatchable.__call__', 'pgpy.packet.types.Header.parse', 'pgpy.packet.packets.SignatureV4.parse',
+FUNCTIONS_ENCODED = ['pgpy.pgp.PGPKey._get_key_flags', 'pgpy.decorators.KeyAction.usage', 'pgpy.packet.fields.SubPackets.__copy__', 'pgpy.types.MetaDispatchable.__call__', 'pgpy.packet.types.Header.parse', 'pgpy.packet.packets.SignatureV4.parse',
                      'pgpy.packet.fields.SubPackets.parse', 'pgpy.packet.fields.SubPackets.__hashbytearray__',
                      'pgpy.packet.fields.SubPackets._serialize_hashed', 'pgpy.packet.subpackets.types.Header.parse',
                      'pgpy.packet.subpackets.types.Header.__bytearray__', 'pgpy.pgp.PGPSignature.hashdata',
